@@ -1,5 +1,7 @@
 CONSTANTS
   Dev = {}
+  AnchorForms = {"dnskey"}
+  Cfgs = {"default"}
   MaxRuns = 3
   EntQKinds = {"positive"}
   Budget = 1
@@ -16,5 +18,7 @@ INVARIANT WithinAllowed
 INVARIANT CacheTransparent
 INVARIANT NoPanic
 INVARIANT Terminates
+INVARIANT NoAnchorNotSecure
+INVARIANT LimitsEnforced
 INVARIANT Emit
 CHECK_DEADLOCK TRUE
